@@ -96,8 +96,13 @@ def replay(p):
             bf2 = np.asarray(bw.barrier_factor2(list(range(L + 1)), t(q), t(q0), d).numpy())[0, L]
             err = max(abs(b - ref), abs(b2 - ref), abs(bf - q**L * ref), abs(bf2 - q**L * ref)) / max(1.0, abs(ref))
         elif kind == "bprime_q2_below":
-            b2 = f(bw.Bprime_q2(L, t(p["q2"]), t(p["q02"]), p["d"]))
-            err = 0.0 if math.isfinite(b2) else float("inf")
+            # the pole sits at an algebraic number that a double only approximates: the value is not finite there, or
+            # unboundedly large on the side of the root where the ratio of the polynomials is positive
+            worst = 0.0
+            for rel in (0.0, 1e-15, -1e-15, 1e-14, -1e-14, 1e-13, -1e-13, 1e-12, -1e-12, 1e-11, -1e-11, 1e-10, -1e-10):
+                b2 = f(bw.Bprime_q2(L, t(p["q2"] * (1 + rel)), t(p["q02"]), p["d"]))
+                worst = float("inf") if not math.isfinite(b2) else max(worst, abs(b2))
+            err = float("inf") if worst > 1e4 else 0.0
         elif kind == "gamma":
             g = f(bw.Gamma(t(p["m"]), p["g0"], t(p["q"]), t(p["q0"]), L, p["m0"], p["d"]))
             ref = _gamma(L, p["m"], p["m0"], p["g0"], p["q"], p["q0"], p["d"])
